@@ -3,5 +3,5 @@
 From Coq Require Import ExtrOcamlBasic.
 From SL Require Import Lib.Base Lib.Oracle Model.VEnc.
 Extraction Language OCaml.
-Extraction "../ocaml/gen/m_c09.ml" conv_anchor encrypt_with_proof verify decrypt to_bytes from_bytes
+Extraction "../ocaml/gen/m_c09.ml" conv_anchor encrypt_with_proof_usize verify decrypt to_bytes from_bytes
   repr_be from_repr_be repr_le from_repr_le label_int mod_inverse bu_from_be bu_to_be.
